@@ -321,6 +321,10 @@ class CaseResult:
         self.stuck = False
         self.final_equal = None
         self.states = 0
+        self.inv_fail = None      # (action index, readable action, failing clause) of the executable invariant
+        self.inv_states = 0
+        self.quiet_states = 0
+        self.quiet_unequal = None
 
 
 def run_case(case, model, exact_stamps=True, extra_rounds=2):
@@ -380,6 +384,20 @@ def run_case(case, model, exact_stamps=True, extra_rounds=2):
         res.calls = sum(len(c) for _, c in snaps)
         out = model.call([0, wire_cfg(case["level"]), t0, lg0, acts])
         res.in_frag = bool(model.call([1, wire_cfg(case["level"]), acts]))
+        if case["level"] == 1:
+            # the coupling invariant of AlgoInv.v, evaluated by the extracted model on every world of the run
+            # (equal to the real states by the comparison below); and "quiescent => equal trees"
+            inv = model.call([2, wire_cfg(case["level"]), t0, lg0, acts])
+            for i, v in enumerate(inv):
+                if v[0] == 999:
+                    break
+                res.inv_states += 1
+                if v[0] != 0 and res.inv_fail is None:
+                    res.inv_fail = (i - 1, readable[i - 1] if i else "initial state", v[0])
+                if v[1]:
+                    res.quiet_states += 1
+                    if not v[2] and res.quiet_unequal is None:
+                        res.quiet_unequal = (i - 1, readable[i - 1] if i else "initial state")
         m0 = un_world(out[0])
         d = diff(init, m0, [], exact_stamps)
         if d:
@@ -436,7 +454,7 @@ def _chunk(args):
         _W["model"] = fw.ModelProc("algo")
     gen = getattr(FA, fam)
     st = dict(runs=0, actions=0, states=0, user_ops=0, engine_calls=0, rounds=0, oof=0, not_in_fragment=0, stuck=0,
-              loop_errors=0, final_unequal=0, opkinds={}, distinct=set(), samples=[])
+              loop_errors=0, final_unequal=0, inv_states=0, quiet_states=0, opkinds={}, distinct=set(), samples=[])
     fails = []
     for i in range(start, start + count):
         rng = random.Random("%s/%s/%d" % (seed, fam, i))
@@ -452,6 +470,8 @@ def _chunk(args):
         st["oof"] += int(res.oof is not None)
         st["not_in_fragment"] += int(res.in_frag is False)
         st["final_unequal"] += int(res.final_equal is False)
+        st["inv_states"] += res.inv_states
+        st["quiet_states"] += res.quiet_states
         nu = 0
         for a in case["schedule"]:
             key = a[2][0] if a[0] == "user" else a[0]
@@ -474,6 +494,10 @@ def _chunk(args):
             bad = ("domain", (-1, "generator", "generated history is outside the domain predicate of its level"))
         elif res.final_equal is False:
             bad = ("unequal", (res.actions, "end", "quiescent but the two views differ"))
+        elif res.inv_fail:
+            bad = ("invariant", (res.inv_fail[0], res.inv_fail[1], "coupling invariant (AlgoCheck.inv_code) fails: clause %d" % res.inv_fail[2]))
+        elif res.quiet_unequal:
+            bad = ("quiet-unequal", (res.quiet_unequal[0], res.quiet_unequal[1], "quiescent state with different relative trees"))
         if bad:
             fails.append((jsonable(dict(case, _id=[fam, i])), bad[0], list(bad[1])))
     st["distinct"] = list(st["distinct"])
@@ -521,6 +545,10 @@ def shrink(case, kind, model):
             return r.stuck
         if kind == "unequal":
             return r.final_equal is False and not r.diff
+        if kind == "invariant":
+            return r.inv_fail is not None and not r.diff
+        if kind == "quiet-unequal":
+            return r.quiet_unequal is not None and not r.diff
         return False
     return dict(case, schedule=fw.shrink_list(case["schedule"], fails, max_rounds=120))
 
@@ -579,6 +607,7 @@ def algo_stream(ctx, streams, plan=None, label="algo"):
                                          engine_provider_calls=st["engine_calls"], drain_rounds=st["rounds"],
                                          out_of_fragment=st["oof"], outside_domain_predicate=st["not_in_fragment"],
                                          stuck=st["stuck"], loop_errors=st["loop_errors"], final_views_unequal=st["final_unequal"],
+                                         invariant_evaluated_on_states=st["inv_states"], quiescent_states=st["quiet_states"],
                                          op_kinds=st["opkinds"], differences=len(fails), wall_s=round(time.time() - t1, 1))
         tot_runs += st["runs"]
         tot_states += st["states"]
@@ -595,7 +624,11 @@ def algo_stream(ctx, streams, plan=None, label="algo"):
                 first2 = list(r.diff) if r.diff else first
             except Exception as e:
                 first2 = first + ["shrink failed: %r" % e]
-            if kind in ("stuck", "unequal", "loop-error"):
+            if kind == "invariant":
+                ctx.violation("ALGO %s: the coupling invariant proved in AlgoInv.v fails on a state of an in-fragment run: %r" % (fam, first2),
+                              dict(kind="algo-invariant", family=case.get("_id"), case=jsonable(small), original=case, first_difference=first2),
+                              no_input=True, theorem="ALGO_inv_reachable (executable form AlgoCheck.inv_code)")
+            elif kind in ("stuck", "unequal", "loop-error", "quiet-unequal"):
                 # the real engine itself fails the property on this history: a failing input
                 ctx.violation("ALGO %s: real engine %s on an in-fragment history: %r" % (fam, kind, first2),
                               dict(kind="algo-" + kind, family=case.get("_id"), case=jsonable(small), original=case,
